@@ -51,7 +51,7 @@ class IAStlOutputRobustnessDenseTimeOfflineAstVisitor(IAStlDenseTimeOfflineAstVi
 
         if not node.out_vars:
             for i, sample in enumerate(sat_samples):
-                val = float("inf") if sample == True else -float("inf")
+                val = float("inf") if sample[1] == True else -float("inf")
                 out.append([out_sample[i][0], val])
         else:
             out = out_sample
@@ -67,7 +67,7 @@ class IAStlInputRobustnessDenseTimeOfflineAstVisitor(IAStlDenseTimeOfflineAstVis
 
         if not node.in_vars:
             for i, sample in enumerate(sat_samples):
-                val = float("inf") if sample == True else - float("inf")
+                val = float("inf") if sample[1] == True else - float("inf")
                 out.append([out_sample[i][0], val])
         else:
             out = out_sample
